@@ -228,4 +228,33 @@ def c11_d(ctx: Ctx):
     return res
 
 
-RULES = [c11_a, c11_b, c11_c, c11_d]
+@rule("C11-e")
+def c11_e(ctx: Ctx):
+    """remove() / clear() attempt the deletion and let the operating system report what is wrong: the deleting primitive is not placed behind an
+    existence probe (os.path.exists / isdir / `job in project` answer False for *every* failing stat - EIO, EACCES, ESTALE -, which would turn an I/O
+    error into 'nothing to remove' and report success while the data is still there)."""
+    R = "C11-e"
+    out = []
+    for q in ("signac.job:Job.remove", "signac.job:Job.clear"):
+        f = ctx.fn(q)
+        dels = [e for e in ctx.effects.direct(f) if e.kind == "delete"]
+        if not dels:
+            out.append(ctx.inc(R, f, f.node, "no deleting primitive found", construct=q + "|delete-unconditional"))
+            continue
+        for e in dels:
+            facts = common.expand_facts(ctx, f, common.facts_at(ctx, f, e.node, "n"))
+            gate = [(t, pol) for (t, pol) in facts if pol and (
+                any(x in t for x in ("os.path.exists(", "os.path.isdir(", "os.path.lexists(", "os.path.isfile(", ".isfile(", "_contains_job_id(")) or
+                t.replace(" ", "").startswith("selfin") or "in self._project" in t)]
+            k = f"{q}|delete-unconditional|{e.prim}"
+            if gate and q == "signac.job:Job.remove":
+                out.append(ctx.viol(R, f, e.node, f"{e.prim} runs only under the existence probe {gate[0][0]!r}: the probe answers False for every error of the underlying stat, not only for "
+                                    "'does not exist', so on a failing file system remove() returns normally, forgets the directory, and the job's data is still on disk", construct=k))
+            elif gate:
+                out.append(ctx.info(R, f, e.node, f"{e.prim} under {gate[0][0]!r}", construct=k))
+            else:
+                out.append(ctx.ok(R, f, e.node, f"{e.prim} is attempted unconditionally; only ENOENT is tolerated by the handler (C11-a)", construct=k))
+    return out
+
+
+RULES = [c11_a, c11_b, c11_c, c11_d, c11_e]
